@@ -24,8 +24,8 @@ Which Rust body is in effect for `Module<BE>` (checked in `delegates/operations.
 A Rust function `op(&self, res, a, …)` becomes `op N res a … : Outcome GLWE` returning the new
 value of `res` (`N` = `module.n()`).  Every `assert!` / index check reachable from the arguments is a
 `panic` outcome.  Not modelled: the `scratch.available() >= tmp_bytes` assertions (the harness
-always supplies enough scratch; the *content* of scratch is an input where the Rust reads it, see
-`glweRsh`).  `GLWE` has no `k` field in the Rust (`size = data.size()`); the `k` field of
+always supplies enough scratch; the *content* of scratch is an input of the interpreter — the
+harness fills the arena with a pattern before every operation — and no operation depends on it).  `GLWE` has no `k` field in the Rust (`size = data.size()`); the `k` field of
 `Core.GLWE` is carried along unchanged.
 -/
 
@@ -138,10 +138,9 @@ def glweSubNegateAssign (N : Nat) (res a : GLWE) : Outcome GLWE :=
 
 /-! ## GLWENegate -/
 
-/-- `glwe_negate(res, a)`.  No radix assertion; the final `res.base2k = a.base2k` of the Rust is a
-store into the temporary view returned by `to_mut()` and has no effect on the caller's object. -/
+/-- `glwe_negate(res, a)` -/
 def glweNegate (N : Nat) (res a : GLWE) : Outcome GLWE :=
-  check (a.n == N) <| check (res.n == N) <| check (a.rank == res.rank) <|
+  check (a.n == N) <| check (res.n == N) <| check (res.base2k == a.base2k) <| check (a.rank == res.rank) <|
   forRange 0 (res.rank + 1) (fromCol a (vecNegate N res.size)) res
 
 /-- `glwe_negate_assign(res)` -/
@@ -151,18 +150,20 @@ def glweNegateAssign (N : Nat) (res : GLWE) : Outcome GLWE :=
 
 /-! ## GLWECopy -/
 
-/-- `glwe_copy(res, a)` (no radix assertion) -/
+/-- `glwe_copy(res, a)` -/
 def glweCopy (N : Nat) (res a : GLWE) : Outcome GLWE :=
-  check (res.n == N) <| check (a.n == N) <| check (res.rank == a.rank || a.rank == 0) <|
+  check (res.n == N) <| check (a.n == N) <| check (res.base2k == a.base2k) <|
+  check (res.rank == a.rank || a.rank == 0) <|
   let minRank := min res.rank a.rank + 1
   bind (forRange 0 minRank (fromCol a (vecCopy N res.size)) res) fun r1 =>
   forRange minRank (res.rank + 1) (selfCol (fun _ => vecZero N res.size)) r1
 
 /-! ## GLWERotate -/
 
-/-- `glwe_rotate(k, res, a)` (no radix assertion) -/
+/-- `glwe_rotate(k, res, a)` -/
 def glweRotate (N : Nat) (k : Int) (res a : GLWE) : Outcome GLWE :=
-  check (a.n == N) <| check (res.n == N) <| check (res.rank == a.rank || a.rank == 0) <|
+  check (a.n == N) <| check (res.n == N) <| check (res.base2k == a.base2k) <|
+  check (res.rank == a.rank || a.rank == 0) <|
   bind (forRange 0 (a.rank + 1) (fromCol a (vecRotate k N res.size)) res) fun r1 =>
   forRange (a.rank + 1) (res.rank + 1) (selfCol (fun _ => vecZero N res.size)) r1
 
@@ -172,9 +173,9 @@ def glweRotateAssign (_N : Nat) (k : Int) (res : GLWE) : Outcome GLWE :=
 
 /-! ## GLWEMulXpMinusOne -/
 
-/-- `glwe_mul_xp_minus_one(k, res, a)` (no radix assertion) -/
+/-- `glwe_mul_xp_minus_one(k, res, a)` -/
 def glweMulXpMinusOne (N : Nat) (k : Int) (res a : GLWE) : Outcome GLWE :=
-  check (res.n == N) <| check (a.n == N) <| check (res.rank == a.rank) <|
+  check (res.n == N) <| check (a.n == N) <| check (res.base2k == a.base2k) <| check (res.rank == a.rank) <|
   forRange 0 (res.rank + 1) (fromCol a (vecMulXpMinusOne k N res.size)) res
 
 /-- `glwe_mul_xp_minus_one_assign(k, res, scratch)` -/
@@ -184,35 +185,16 @@ def glweMulXpMinusOneAssign (N : Nat) (k : Int) (res : GLWE) : Outcome GLWE :=
 
 /-! ## GLWEShift -/
 
-/-- `vec_znx_rsh_assign` on one column with the carry words of the scratch arena explicit.  The
-kernel never initialises its carry when `k = 0` (`steps = 0`): it then reads, per coefficient, what
-the scratch holds on entry (`carry`) and leaves its own top carry-out there.  Returns the new column
-and the content of the carry words on exit (only meaningful, and only used, when `k = 0`).
-`none` = the index panic of `at()` when `⌈k/base2k⌉ > size`. -/
-def rshAssignColCarry (b k : Nat) (carry : List Int) (a : Col) : Option (Col × List Int) :=
-  match carry.zipIdx.mapM (fun (ci : Int × Nat) => rshAssignCoef b k ci.1 (coefAt a ci.2)) with
-  | none => none
-  | some cs =>
-    some (ofCoefs a.length cs,
-      if k = 0 then carry.zipIdx.map (fun (ci : Int × Nat) => (middleRun 64 b 0 (coefAt a ci.2) ci.1).2)
-      else carry)
-
-/-- the column loop of `glwe_rsh`, threading the content of the scratch carry words -/
-def rshCols (b k : Nat) : (cnt lo : Nat) → GLWE → List Int → Outcome GLWE
-  | 0, _, g, _ => .ok g
-  | cnt + 1, lo, g, carry =>
-    match g.cols[lo]? with
-    | none => .panic "bounds"
-    | some old =>
-      match rshAssignColCarry b k carry old with
-      | none => .panic "assert"
-      | some (c, carry') => rshCols b k cnt (lo + 1) { g with cols := g.cols.set lo c } carry'
-
-/-- `glwe_rsh(k, res, scratch)`: `vec_znx_rsh_assign` on every column.  `scr` is the 64-bit pattern
-the scratch arena holds on entry (read by the kernel when `k = 0`; column `i+1` then reads what
-column `i` left behind). -/
+/-- `glwe_rsh(k, res, scratch)`: `vec_znx_rsh_assign` on every column (every `k`: the kernel zeroes
+its carry when `k = 0` and walks the gap when `⌈k/base2k⌉ > size`; the content `scr` of the scratch
+arena is not read any more and is only passed on to the kernel model, which ignores it).
+`rshAssignCol?` is total on well-formed columns; its `none` is mapped to a panic so that no default
+does real work. -/
 def glweRsh (N : Nat) (scr : Int) (k : Nat) (res : GLWE) : Outcome GLWE :=
-  rshCols res.base2k k (res.rank + 1) 0 res (List.replicate N scr)
+  forRange 0 (res.rank + 1) (fun i r =>
+    updCol i (fun ri => match rshAssignCol? res.base2k k scr ri N with
+      | some c => .ok c
+      | none => .panic "other") r) res
 
 /-- `glwe_lsh_assign(res, k, scratch)` -/
 def glweLshAssign (N : Nat) (res : GLWE) (k : Nat) : Outcome GLWE :=
